@@ -20,6 +20,8 @@ def scenario_ops(sc, rnd):
             ops += [[6, 1, 2, 0], [13]]
         elif sc['follow'] == 2:
             ops += [[13]]
+        elif sc['follow'] == 3:
+            ops += [[6, 1, 2, 0], [17, 1, 1], [13]]
         return ops
     if sc.get('geo') == 1:
         rects = {1: (37, 15, 43, 25, 4, 2), 2: (47, 35, 53, 45, 0, 1), 3: (7, 5, 13, 15, 4, 2), 4: (7, 45, 13, 55, 0, 1), 5: (57, 15, 63, 25, 4, 2)}
@@ -35,6 +37,8 @@ def scenario_ops(sc, rnd):
             ops += [[6, 1, 2, 0], [13]]
         elif sc['follow'] == 2:
             ops += [[13]]
+        elif sc['follow'] == 3:
+            ops += [[6, 1, 2, 0], [17, 1, 1], [13]]
         return ops
     ops = [[1, 1, 2, 2, 10, 10], [1, 2, 14, 14, 22, 22], [1, 3, 26, 2, 34, 10]]
     # non-exclusive pins of both classes on both shapes
@@ -51,6 +55,8 @@ def scenario_ops(sc, rnd):
         ops += [[6, 1, 2, 0], [13]]
     elif sc['follow'] == 2:
         ops += [[13]]
+    elif sc['follow'] == 3:
+        ops += [[6, 1, 2, 0], [17, 1, 1], [13]]
     return ops
 
 
